@@ -139,6 +139,10 @@ func (txn *Txn[T]) RootWatch() <-chan struct{} {
 // modification to the key) and boolean which is true if
 // value was found.
 func (txn *Txn[T]) Get(key []byte) (T, <-chan struct{}, bool) {
+	// Bump txnID in order to freeze the current tree: the returned watch
+	// channel may belong to a node created by this transaction, which would
+	// otherwise be mutated in-place by later writes without closing it.
+	txn.txnID++
 	value, watch, ok := search(txn.root, txn.rootWatch, key)
 	return value, watch, ok
 }
